@@ -120,6 +120,10 @@ type WalkScn struct {
 	// SameOpts: the nested (re-entrant) walks are given the very same
 	// *WalkOptions value as the outer walk
 	SameOpts bool `json:"same_opts,omitempty"`
+	// Warm: the *WalkOptions value has already served one complete top-level
+	// walk of the same tree when the recorded walk starts (a caller that keeps
+	// one options value around)
+	Warm bool `json:"warm,omitempty"`
 }
 
 type TaskScn struct {
